@@ -390,6 +390,13 @@ example :
             .entries [(4, 40), (9, 90), (6, 61)], .flag false] := by
   decide
 
+/-- the hypotheses of `ptr_insert_existing` / `ptr_simulated` are met by a non-empty coupled pair of tables -/
+example : ∃ (pt : Ptr.PTable) (t : Table), Ptr.Rel pt t ∧ t.Inv (fun _ => 7) ∧ 0 ∈ t.order ∧ (t.items 0).key = 5 := by
+  obtain ⟨r, _, _, hr, _⟩ :=
+    (Ptr.fresh_rel false 1).insert (fresh_inv (fun _ => 7) 1 (by decide)) Kind.map 0 5 50 (Nat.zero_le _)
+  exact ⟨r.1, _, hr, ((fresh_inv (fun _ => 7) 1 (by decide)).insert Kind.map 0 5 50 (Nat.zero_le _)).1,
+    by decide, by decide⟩
+
 example : hashStringReads 0 = [0, 0, 0] ∧ hashStringReads 5 = [0, 2, 4] := by decide
 
 end Nstd.Hash
